@@ -26,6 +26,9 @@ pub fn run(ctx: &Ctx) -> Report {
             let a = &mut a.borrow_mut();
             let cp = a.checkpoint();
             let n = Builder::new(sh, Enc::Inline).build(a, &t);
+            let probe_nil = a.nil();
+            let one = a.one();
+            let probe_pair = a.new_pair(one, probe_nil).unwrap();
             let br = node_to_bytes_backrefs(a, n).expect("unlimited backref serialization");
             if br.len() < classic.len() {
                 acc.inc("trees_with_backrefs");
@@ -41,6 +44,18 @@ pub fn run(ctx: &Ctx) -> Report {
                             o => acc.violation(canon, format!("limit {limit} >= len {}: got {:?}", full.len(), o.map(|b| hx(&b)))),
                         }
                     } else {
+                        // history: a FAILED limited call must leave nothing behind — right after it, a short probe
+                        // tree serialized by every serializer (ample limit / unlimited) gives exactly its own bytes
+                        for (pn, pb) in [(probe_nil, &[0x80u8][..]), (probe_pair, &[0xff, 0x01, 0x80][..])] {
+                            let outs = [("node_to_bytes_limit", node_to_bytes_limit(a, pn, 10)), ("node_to_bytes_backrefs_limit", node_to_bytes_backrefs_limit(a, pn, 10)), ("node_to_bytes", clvmr::serde::node_to_bytes(a, pn)), ("node_to_bytes_backrefs", node_to_bytes_backrefs(a, pn))];
+                            for (name, o) in outs {
+                                acc.inc("after_failure_probes");
+                                match o {
+                                    Ok(b) if b == pb => {}
+                                    o => acc.violation(format!("{canon} then {name}({})", hx(pb)), format!("after the failed call the probe tree serializes to {:?}", o.map(|b| hx(&b)))),
+                                }
+                            }
+                        }
                         match r {
                             Err(EvalErr::OutOfMemory) => acc.inc("below_limit_oom"),
                             Err(e) => {
@@ -63,6 +78,6 @@ pub fn run(ctx: &Ctx) -> Report {
     rep.states = total;
     rep.transitions = rep.evaluations;
     rep.traces = rep.evaluations;
-    rep.rule = format!("every tree of TREES({k}, A6+100-byte+40-byte) (fresh) and TREES({}, {{nil,01,40-byte}}) (hash-consed, back-reference rich), every limit 0..=len+1, both limited serializers; oracle: L>=len => unlimited bytes, L<len => Err(OutOfMemory). Non-trivial = (tree, limit, serializer) triples whose outcome matched the oracle.", ctx.pick(4, 6));
+    rep.rule = format!("every tree of TREES({k}, A6+100-byte+40-byte) (fresh) and TREES({}, {{nil,01,40-byte}}) (hash-consed, back-reference rich), every limit 0..=len+1, both limited serializers; oracle: L>=len => unlimited bytes, L<len => Err(OutOfMemory), and after every failed call two short probe trees serialize to exactly their own bytes through all four serializers (a failure leaves no state behind). Non-trivial = (tree, limit, serializer) triples whose outcome matched the oracle.", ctx.pick(4, 6));
     rep
 }
